@@ -80,8 +80,88 @@ def cases(draw):
     return case
 
 
+# a destination whose handler blocks the event loop for a while during one delivery (a slow synchronous
+# handler): the pace is 'interval' seconds between deliveries, lost time is not made up by a burst
+stall_cases = st.builds(
+    lambda i, c, j, s, e: {'k': 'stall', 'interval': i, 'count': c, 'stall_at': j, 'stall': s, 'extra': e},
+    st.sampled_from([2, 3]), st.sampled_from([None, 3, 5, 6]), st.integers(0, 3),
+    st.sampled_from([0.5, 2.5, 3.0, 4.5, 7.0, 13.0]), st.integers(2, 5))
+
+
 def strategy(tier):
-    return cases()
+    return st.one_of(cases(), cases(), cases(), cases(), stall_cases)
+
+
+def exec_stall(case):
+    res = Result()
+    log = []
+    info = {}
+    interval, count, j, stall = case['interval'], case['count'], case['stall_at'], case['stall']
+    # expected deliveries (repeat number, time); the series is observed for 'extra' more intervals
+    expected = []
+    t = 0.5
+    k = 0
+    nmax = j + case['extra']
+    while k <= nmax and (count is None or k <= count):
+        expected.append((k, t))
+        t += interval + (stall if k == j else 0.0)
+        k += 1
+    stop = expected[-1][1] + (stall if expected[-1][0] == j else 0.0) + 0.25
+
+    async def scenario(loop):
+        harness.reset()
+        circuit = edzed.get_circuit()
+        t0 = loop.time()
+
+        def hook(rec_):
+            log.append((rec_['data'].get('repeat'), loop.time() - t0))
+            if rec_['data'].get('repeat') == j:
+                loop.vclock.advance(stall)       # the handler takes that long
+        rec = harness.Recorder('rec', x_log=[], x_hook=hook)
+        rp = edzed.Repeat('rp0', dest=rec, etype='put', interval=interval, count=count)
+        async with harness.Running() as sim:
+            if sim.init_error is not None:
+                info['init_error'] = repr(circuit.error)
+                return
+            await harness.vloop.sleep_until(loop, t0 + 0.5)
+            edzed.ExtEvent(rp, 'put').send(1)
+            await harness.vloop.sleep_until(loop, t0 + stop)
+            info['error'] = repr(circuit.error) if circuit.error is not None else None
+            info['output'] = rp.output
+
+    harness.run_case(scenario)
+    if 'init_error' in info:
+        res.fail('C18.init_failed', info['init_error'])
+        return res
+    if info.get('error'):
+        res.fail('C18.simulation_error', info['error'])
+    got = [(k, round(t, 6)) for k, t in log]
+    want = [(k, round(t, 6)) for k, t in expected]
+    # 'every interval seconds': the time a handler takes may or may not be added to the interval (the
+    # slowest admissible schedule is 'want'), but two deliveries are never closer than the interval
+    problem = None
+    if [k for k, _ in got] != list(range(len(got))):
+        problem = 'numbering'
+    elif len(got) < len(want) or (count is not None and len(got) > count + 1):
+        problem = 'number of deliveries'
+    elif got and abs(got[0][1] - 0.5) > 1e-3:
+        problem = 'first delivery'
+    else:
+        for (k0, a), (k1, b) in zip(got, got[1:]):
+            longest = interval + (stall if k0 == j else 0.0)
+            if b - a < interval - 1e-3 or b - a > longest + 1e-3:
+                problem = f'gap {round(b - a, 6)} s between repetitions {k0} and {k1}'
+                break
+    if problem:
+        res.fail('C18.pace', f"interval {interval}, count {count}, delivery {j} takes {stall} s: {problem}; "
+                 f"deliveries (repeat, time) {got}; slowest admissible schedule {want}")
+    elif info.get('output') != got[-1][0]:
+        res.fail('C18.output', f"output {info.get('output')}, last repeat number {got[-1][0]}")
+    res.nontrivial = stall > interval and len(expected) > j + 1
+    res.classes = ['slow destination handler', 'stall longer than the interval' if stall > interval
+                   else 'stall shorter than the interval']
+    res.outcome = {'deliveries': len(got)}
+    return res
 
 
 # ---------------------------------------------------------------- reference model
@@ -229,6 +309,8 @@ def match_log(case, names, got):
 
 # ---------------------------------------------------------------- executor
 def execute(case):
+    if case.get('k') == 'stall':
+        return exec_stall(case)
     res = Result()
     log = []
     info = {}
